@@ -35,6 +35,9 @@ Inductive obs :=
 Record sys := { s_flw : option flw; s_w : world; s_tl : bytes;
                 s_dead : bool }.   (* asynchronous mode: the writer thread has ended (shutdown message, or a panic) *)
 
+Definition cap_eqb (a b : option nat) : bool :=
+  match a, b with Some x, Some y => Nat.eqb x y | None, None => true | _, _ => false end.
+
 Definition code_of {A} (r : res A) : N := match r with Ok _ => 0 | Err => 1 | Panic => 2 end.
 
 Definition snapshot (w : world) : obs :=
@@ -172,6 +175,8 @@ Definition sync_step (x : sys) (o : op) : sys * obs :=
     | None => none
     | Some s =>
       if f_poisoned s then (x, ObsRes 1 false) else
+      (* assert_write_mode: the new configuration must have the very same write mode, otherwise nothing happens *)
+      if negb (cap_eqb (c_cap c) (c_cap (f_cfg s)) && Bool.eqb (c_async c) (c_async (f_cfg s))) then (x, ObsRes 1 false) else
       (* the old State is dropped without shutdown: queued cleanup requests are still worked off, the writer flushes *)
       let w0 := drain_acts s w in
       let w1 := match f_inner s with Active _ wr _ => w_drop w0 wr | Initial => w0 end in
